@@ -150,7 +150,7 @@ func oracleHas(c *Ctx, id string) bool {
 
 // until the Coq model stores record values in declaration order (in progress), programs with a record
 // literal written in another field order are compared with the reference interpreter and real Go only
-const modelSkipsPermutedRecords = true
+const modelSkipsPermutedRecords = false
 
 func usesExtPartial(p *Prog) bool {
 	stage := map[*Expr]bool{}
